@@ -378,6 +378,21 @@ func (g *gen) ptype(depth int, must bool) *Spec {
 	case 6, 7, 8:
 		s.S = "Callable"
 		w := g.r.Intn(3)
+		// a parameter of a Callable is not itself a Tuple or Callable type (nor Optional[Callable]) free of user types: written as
+		// text, Callable[Tuple[..]] reads as "the parameter tuple" and a trailing Callable as "the block" - the
+		// text form of such a type, which is how it travels when it holds no user type, does not denote it
+		// (a defect of the type syntax, outside this property; see design_notes/C10.md)
+		param0 := param
+		param = func(must bool) *Spec {
+			for {
+				p := param0(must)
+				if p.K == "ptype" && !p.hasUserTypes() && (p.S == "Tuple" || p.S == "Callable" ||
+					p.S == "Optional" && len(p.E) == 1 && p.E[0].K == "ptype" && p.E[0].S == "Callable") {
+					continue
+				}
+				return p
+			}
+		}
 		tuple := &Spec{K: "ptype", S: "Tuple"}
 		for i, n := 0, g.r.Intn(3); i < n; i++ {
 			tuple.E = append(tuple.E, param(false))
